@@ -34,8 +34,9 @@ ASSUMPTIONS = [
     'extension point); file readers are covered by C14',
 ]
 _REG = ['%s/%s' % (a, b) for a in ('Tbelow', 'Tin', 'Tabove') for b in ('Pbelow', 'Pin', 'Pabove')]
+RULE = RULE + ' ' + 'Cases are stratified by interpolation mode with a fixed share of queries inside the grid on both axes; a third of the tables hold their temperature axis as whole numbers in an integer array.'
 REQUIRED = {('region:' + r): 0.03 for r in _REG}
-REQUIRED.update({'history:other-mode': 0.1, 'history:same-mode': 0.1, 'axis:integer-temperatures': 0.15})
+REQUIRED.update({'history:other-mode': 0.07, 'history:same-mode': 0.07, 'axis:integer-temperatures': 0.15, 'history:refused-mode,raised': 0.05, 'history:decoy-grid': 0.05})
 
 
 
@@ -91,7 +92,7 @@ def _case(draw, part=None):
         sub = [a, b]
     # history on the live object before the judged query: an earlier query in the other mode followed by
     # set_interpolation_mode, or an earlier query elsewhere in the same mode
-    warm = draw(st.sampled_from([None, 'other-mode', None, 'same-mode']))
+    warm = draw(S.pick([None, 'other-mode', 'same-mode', 'other-mode', 'refused-mode', 'decoy-grid', None, 'other-mode', 'refused-mode']))
     wpt = draw(st.tuples(st.floats(0.05, 0.95), st.floats(0.05, 0.95)))
     # the temperature axis stored as whole numbers in an integer array (300, 400, ... K as read from a file that holds
     # them so): the same table, and a query between the nodes is still bracketed by them
@@ -179,8 +180,27 @@ def check(case):
         Pw = 10.0 ** (lp[0] + fP * (lp[-1] - lp[0])) if len(Pg) > 1 else Pg[0] * (0.5 + fP)
         try:
             with np.errstate(all='ignore'):
-                cut(out, 'evaluates', op.opacity, Tw, Pw, None)
+                if warm == 'decoy-grid':
+                    # another opacity alive in the same process whose pressure grid has the same size and end points but
+                    # other interior nodes, used first: objects share nothing
+                    if len(Pg) >= 3:
+                        lpd = np.array(lp, dtype=float)
+                        lpd[1:-1] = lpd[0] + (lpd[1:-1] - lpd[0]) * 0.5
+                        Pd = 10.0 ** lpd
+                        decoy = (synth.SynthKTable('YY', wn, Tg_s, Pd, tab, np.ones(ng) / ng, mode=mode0) if ng
+                                 else synth.SynthOpacity('YY', wn, Tg_s, Pd, tab, mode=mode0))
+                        cut(out, 'evaluates', decoy.opacity, Tw, Pw, None)
+                else:
+                    cut(out, 'evaluates', op.opacity, Tw, Pw, None)
                 if warm == 'other-mode':
+                    cut(out, 'set_interpolation_mode', op.set_interpolation_mode, mode)
+                elif warm == 'refused-mode':
+                    # a mode that does not exist is set, the next request fails (the caller catches it), the mode is put back
+                    op.set_interpolation_mode('cubic')
+                    try:
+                        op.opacity(Tw, Pw, None)
+                    except Exception:
+                        out.cls('history:refused-mode,raised')
                     cut(out, 'set_interpolation_mode', op.set_interpolation_mode, mode)
         except CutError:
             return out
